@@ -304,10 +304,65 @@ def implied_by_guard(fn: ast.FunctionDef, a: ast.Assert) -> Optional[str]:
     return None
 
 
+def implied_by_callers_guard(ctx, fi: FuncInfo, a: ast.Assert) -> Optional[str]:
+    """the assertion is the first thing the function does with its parameters, and every call of the function in the
+    repository stands behind a guard that says the same about the arguments (`if a == b: raise` ... `self.f(a, b)` with
+    `assert a != b` in f)"""
+    fn = fi.node
+    body = [st for st in fn.body if not (isinstance(st, ast.Expr) and isinstance(st.value, ast.Constant))]
+    ps = [x.arg for x in fn.args.posonlyargs + fn.args.args]
+    names = {x.id for x in ast.walk(a.test) if isinstance(x, ast.Name)}
+    if a not in body or not names or not names <= set(ps) or any(isinstance(x, (ast.Call, ast.Attribute, ast.Subscript)) for x in ast.walk(a.test)):
+        return None
+    # nothing before the assertion rebinds a parameter it reads
+    for st in body[:body.index(a)]:
+        if {x.id for x in ast.walk(st) if isinstance(x, ast.Name) and isinstance(x.ctx, ast.Store)} & names:
+            return None
+    callers = list(ctx.cg.callers_of(fi.fq))
+    if not callers:
+        return None
+    off = 1 if fi.cls is not None and ps and ps[0] in ("self", "cls") else 0
+    for cs in callers:
+        if cs.node.keywords or any(isinstance(x, ast.Starred) for x in cs.node.args):
+            return None
+        ren = {}
+        for p_, arg in zip(ps[off:], cs.node.args):
+            if p_ in names:
+                if not isinstance(arg, ast.Name):
+                    return None
+                ren[p_] = arg.id
+        if set(ren) != names:
+            return None
+
+        class Ren(ast.NodeTransformer):
+            def visit_Name(self, node):
+                return ast.copy_location(ast.Name(id=ren.get(node.id, node.id), ctx=node.ctx), node)
+        import copy
+        probe = ast.Assert(test=Ren().visit(copy.deepcopy(a.test)), msg=None)
+        # the statement of the caller that holds the call, and the block it sits in
+        holder = None
+        for blk_owner in ast.walk(cs.caller.node):
+            for fld in ("body", "orelse", "finalbody"):
+                b = getattr(blk_owner, fld, None)
+                if isinstance(b, list):
+                    for st in b:
+                        if isinstance(st, ast.stmt) and any(x is cs.node for x in ast.walk(st)) and not any(
+                                isinstance(sub, ast.stmt) and sub is not st and any(x is cs.node for x in ast.walk(sub)) for sub in ast.walk(st)):
+                            holder = (b, st)
+        if holder is None:
+            return None
+        b, st = holder
+        fake_block = b[:b.index(st)] + [probe]
+        fake_fn = ast.FunctionDef(name="_", args=cs.caller.node.args, body=fake_block, decorator_list=[], returns=None, type_params=[])
+        if implied_by_guard(fake_fn, probe) is None:
+            return None
+    return f"every call of {fi.name} stands behind a guard that says the same about its arguments"
+
+
 def assertion_holds(ctx, fi: FuncInfo, a: ast.Assert) -> Optional[str]:
     """why the assertion holds for every molecule, or None when this domain cannot tell"""
     t = a.test
-    g_ = implied_by_guard(fi.node, a)
+    g_ = implied_by_guard(fi.node, a) or implied_by_callers_guard(ctx, fi, a)
     if g_:
         return g_
     if isinstance(t, ast.BoolOp) and isinstance(t.op, ast.And):
